@@ -699,6 +699,10 @@ class Output(object):
             self.network = self._address_obj.network
             self.encoding = self._address_obj.encoding
             self.witness_type = self._address_obj.witness_type
+            address_witver = getattr(self._address_obj, 'witver', 0)
+            if address_witver and not (address_witver == 1 and len(self.public_hash) == 32):
+                raise TransactionError("Address %s has witness version %d with a %d byte program, which is not "
+                                       "supported" % (self._address, address_witver, len(self.public_hash)))
 
         if self.script:
             self.script_type = self.script_type if not self.script.script_types else self.script.script_types[0]
